@@ -9,6 +9,7 @@
   Props/C01.lean are statements about exactly these shapes.
 -/
 import ExoModel.Syntax
+import ExoModel.Subst
 
 namespace Exo.Rw
 open Exo
@@ -100,6 +101,51 @@ def fuseLoops (body2 : List Stmt) : Local
 
 def fuseIfs : Local
   | .ite c t e :: .ite _ t2 e2 :: r => some (.ite c (t ++ t2) (e ++ e2) :: r)
+  | _ => none
+
+/-- the shape `DoShiftLoop` builds -/
+def shiftLoop (nlo : Expr) : Local
+  | .loop i lo hi b par :: r =>
+    some (.loop i nlo (.binop .add nlo (.binop .sub hi lo))
+      (substL i (.binop .add (.read i []) (.binop .sub lo nlo)) b) par :: r)
+  | _ => none
+
+/-- the index expression `q * io + ii` that `DoDivideLoop` substitutes for the old iterator -/
+def dividedIdx (q : Nat) (io ii : Sym) : Expr :=
+  .binop .add (.binop .mul (.lit (.int q)) (.read io [])) (.read ii [])
+
+/-- the main nest of a divided loop; `guard` wraps the body in `if q*io+ii < hi` -/
+def dividedMain (q : Nat) (io ii : Sym) (ohi : Expr) (guard : Bool) : Stmt → Option Stmt
+  | .loop i _ hi b par =>
+    let body := substL i (dividedIdx q io ii) b
+    let inner := if guard then [.ite (.binop .lt (dividedIdx q io ii) hi) body []] else body
+    some (.loop io (.lit (.int 0)) ohi [.loop ii (.lit (.int 0)) (.lit (.int q)) inner par] par)
+  | _ => none
+
+/-- tail = 0 perfect (outer bound `ohi` chosen by the primitive), 1 guard, 2 cut, 3 cut_and_guard;
+    `copy`/`i3` = the renamed copy of the body and its iterator used by the tail loop -/
+def divideLoop (q : Nat) (tail : Nat) (io ii i3 : Sym) (ohi : Expr) (copy : List Stmt) : Local
+  | .loop i lo hi b par :: r =>
+    let floorHi : Expr := .binop .div hi (.lit (.int q))
+    let ceilHi : Expr := .binop .div (.binop .add hi (.lit (.int ((q : Int) - 1)))) (.lit (.int q))
+    let tailLoop : Stmt := .loop i3 (.lit (.int 0)) (.binop .mod hi (.lit (.int q)))
+        (substL i (.binop .add (.read i3 []) (.binop .mul floorHi (.lit (.int q)))) copy) par
+    match tail with
+    | 0 => (dividedMain q io ii ohi false (.loop i lo hi b par)).map (· :: r)
+    | 1 => (dividedMain q io ii ceilHi true (.loop i lo hi b par)).map (· :: r)
+    | 2 => (dividedMain q io ii floorHi false (.loop i lo hi b par)).map (· :: tailLoop :: r)
+    | 3 => (dividedMain q io ii floorHi false (.loop i lo hi b par)).map
+        (· :: .ite (.binop .gt (.binop .mod hi (.lit (.int q))) (.lit (.int 0))) [tailLoop] [] :: r)
+    | _ => none
+  | _ => none
+
+def unrolledCopies (i : Sym) (b : List Stmt) : Nat → Int → List Stmt
+  | 0, _ => []
+  | n + 1, lo => substL i (.lit (.int lo)) b ++ unrolledCopies i b n (lo + 1)
+
+def unrollLoop : Local
+  | .loop i (.lit (.int lo)) (.lit (.int hi)) b _ :: r =>
+    some (unrolledCopies i b (hi - lo).toNat lo ++ r)
   | _ => none
 
 def reorderStmts : Local
